@@ -39,7 +39,7 @@ pub fn model_for(prop: &str) -> String {
     )
 }
 
-pub const OPS_C02: [&str; 20] = [
+pub const OPS_C02: [&str; 21] = [
     "row-of-another-room",
     "author-without-right-on-entity",
     "row-dated-before-author-was-enabled",
@@ -60,9 +60,10 @@ pub const OPS_C02: [&str; 20] = [
     "reference-deletion-on-foreign-row-with-own-rows-right-only",
     "reference-deletion-naming-a-room-where-the-author-has-every-right",
     "row-deletion-naming-a-room-where-the-author-has-every-right",
+    "deletion-of-own-row-dated-after-author-was-disabled",
 ];
-pub const OPS_C06: [&str; 3] = ["reference-splice-entity-label", "signing-oracle-node", "signing-oracle-reference"];
-pub const OPS_C07: [&str; 9] = [
+pub const OPS_C06: [&str; 5] = ["reference-splice-entity-label", "signing-oracle-node", "signing-oracle-reference", "row-splice-json-binary", "row-splice-entity-json"];
+pub const OPS_C07: [&str; 10] = [
     "older-definition-with-entries-omitted",
     "user-entry-reattached-as-admin",
     "self-signed-admin-entry",
@@ -72,6 +73,7 @@ pub const OPS_C07: [&str; 9] = [
     "user-entry-moved-to-another-group",
     "existing-reference-signed-again-by-the-adversary",
     "entries-omitted-while-a-legitimate-entry-is-added",
+    "user-entry-signed-by-a-revoked-user-admin",
 ];
 
 #[derive(Clone, Debug, Serialize, Deserialize)]
@@ -133,6 +135,16 @@ pub fn generate(seed: u64, property: &str, thorough: bool) -> Trace {
     let mut steps = vec![Step::HonestWrite { dt: 1000 }, Step::HonestPull];
     let n = if thorough { 6 + rw.usize(10) } else { 3 + rw.usize(5) };
     for _ in 0..n {
+        if property == "C02" && rw.chance(1, 8) {
+            // the adversary writes while it is entitled, is disabled, then acts on what it wrote
+            steps.push(Step::HonestWrite { dt: DAY_MS });
+            steps.push(Step::Attack { op: 11, alone: false });
+            steps.push(Step::DisableM);
+            steps.push(Step::HonestPull);
+            steps.push(Step::HonestWrite { dt: *rw.pick(&[DAY_MS, 2 * DAY_MS]) });
+            steps.push(Step::Attack { op: *rw.pick(&[20usize, 20, 3, 4]), alone: false });
+            continue;
+        }
         match rw.weighted(&[15, 10, 5, 70]) {
             0 => steps.push(Step::HonestWrite { dt: *rw.pick(&[1000i64, 3_600_000, DAY_MS, 2 * DAY_MS]) }),
             1 => steps.push(Step::HonestPull),
@@ -194,6 +206,13 @@ pub fn directed(property: &str) -> Vec<Trace> {
         };
         let mut steps = vec![Step::HonestWrite { dt: 1000 }, Step::HonestPull];
         if name == "row-dated-after-author-was-disabled" {
+            steps.push(Step::DisableM);
+            steps.push(Step::HonestPull);
+        }
+        if name == "deletion-of-own-row-dated-after-author-was-disabled" && property == "C02" {
+            // first a legitimate row of the adversary (operator 11), then the adversary is disabled
+            steps.push(Step::HonestWrite { dt: DAY_MS });
+            steps.push(Step::Attack { op: 11, alone: false });
             steps.push(Step::DisableM);
             steps.push(Step::HonestPull);
         }
@@ -284,12 +303,14 @@ fn setup(c: &mut Ctx) -> Result<(), String> {
         c.w.nodes.push(n);
     }
     let (kh, kv, km) = (dv::base64_encode(&c.w.nodes[H].vk), dv::base64_encode(&c.w.nodes[V].vk), dv::base64_encode(&c.w.nodes[M].vk));
+    // C07: a third group of which M is the user admin from the start (revoked below)
+    let gua = if nb == 4 { format!(r#",{{ name:"ua" rights:[{{entity:"Pet" mutate_self:true mutate_all:false}}] user_admin:[{{verif_key:"{}"}}] }}"#, dv::base64_encode(&c.w.nodes[M].vk)) } else { String::new() };
     let kw = if nb == 4 { format!(r#",{{verif_key:"{}"}}"#, dv::base64_encode(&c.w.nodes[W].vk)) } else { String::new() };
     c.now += 100;
     clocks(c);
     // r1: H admin; group "full": H, V with every right; group "m": M with the own-rows right on Person only
     let q = format!(
-        r#"mutate {{ sys.Room{{ admin:[{{verif_key:"{kh}"}}] authorisations:[{{ name:"full" rights:[{{entity:"*" mutate_self:true mutate_all:true}}] users:[{{verif_key:"{kh}"}},{{verif_key:"{kv}"}}{kw}] }},{{ name:"m" rights:[{{entity:"Person" mutate_self:true mutate_all:false}}] }}] }} }}"#
+        r#"mutate {{ sys.Room{{ admin:[{{verif_key:"{kh}"}}] authorisations:[{{ name:"full" rights:[{{entity:"*" mutate_self:true mutate_all:true}}] users:[{{verif_key:"{kh}"}},{{verif_key:"{kv}"}}{kw}] }},{{ name:"m" rights:[{{entity:"Person" mutate_self:true mutate_all:false}}] }}{gua}] }} }}"#
     );
     let r = c.w.nodes[H].mutate(&q, None)?;
     let _ = c.w.nodes[H].drain_events();
@@ -298,6 +319,7 @@ fn setup(c: &mut Ctx) -> Result<(), String> {
     c.r1 = (dv::uid_decode(&id).map_err(|e| e.to_string())?, id.clone());
     c.g_full = v["sys.Room"]["authorisations"][0]["id"].as_str().unwrap_or("").to_string();
     c.g_m = v["sys.Room"]["authorisations"][1]["id"].as_str().unwrap_or("").to_string();
+    let g_ua = v["sys.Room"]["authorisations"][2]["id"].as_str().unwrap_or("").to_string();
     // M becomes a user of group "m" one hour later (rows dated before are not covered)
     c.now += 3_600_000;
     clocks(c);
@@ -316,6 +338,12 @@ fn setup(c: &mut Ctx) -> Result<(), String> {
         c.now += 3_600_000;
         clocks(c);
         let q = format!(r#"mutate {{ sys.Room{{ id:"{id}" admin:[{{verif_key:"{kw}" enabled:false}}] }} }}"#);
+        c.w.nodes[H].mutate(&q, None)?;
+        let _ = c.w.nodes[H].drain_events();
+        // and M stops being the user admin of the third group
+        c.now += 1000;
+        clocks(c);
+        let q = format!(r#"mutate {{ sys.Room{{ id:"{id}" authorisations:[{{ id:"{g_ua}" user_admin:[{{verif_key:"{km}" enabled:false}}] }}] }} }}"#);
         c.w.nodes[H].mutate(&q, None)?;
     let _ = c.w.nodes[H].drain_events();
     }
@@ -895,6 +923,20 @@ fn attack_c02(c: &mut Ctx, op: &'static str) -> Result<(), String> {
                 c.session_room = Some(c.r4.0);
             }
         }
+        "deletion-of-own-row-dated-after-author-was-disabled" => {
+            // a row M wrote while it had the right, stored by V; M, disabled since, signs its deletion dated now
+            let Some(d) = c.m_disabled_from else { return Ok(()) };
+            if day <= d {
+                return Ok(());
+            }
+            let dvv = oracle::dump_room(&c.w.nodes[V].oracle_conn()?, &r1)?;
+            let mvk = c.w.nodes[M].vk.clone();
+            let Some(row) = dvv.nodes.iter().find(|n| n.author == mvk && n.mdate < d) else { return Ok(()) };
+            let node = to_node(row);
+            let del = dv::NodeDeletionEntry::build(r1, &node, day, &mkey);
+            keep_version = Some((node.id, row.signature.clone()));
+            inj.node_dels.push(del);
+        }
         "row-deletion-naming-a-room-where-the-author-has-every-right" => {
             let d3 = oracle::dump_room(&c.w.nodes[V].oracle_conn()?, &c.r3.0)?;
             let Some(row) = d3.nodes.iter().find(|n| n.entity == "0") else { return Ok(()) };
@@ -1084,6 +1126,31 @@ fn attack_c06(c: &mut Ctx, op: &'static str) -> Result<(), String> {
         "reference-splice-entity-label" => {
             inj.splice = true;
         }
+        "row-splice-json-binary" | "row-splice-entity-json" => {
+            // the adversary signs one row and presents another one made of the same bytes cut at another place:
+            // the end of the JSON text moved into the binary field / the end of the entity name moved into the JSON text
+            if c.m_disabled_from.is_some() {
+                return Ok(());
+            }
+            let person = template(c, &r1, "0")?;
+            let mkey = c.w.nodes[M].signing_key();
+            let j = person.json.clone().unwrap_or_default();
+            let (signed_json, signed_entity, shown_json, shown_entity, shown_binary): (String, String, String, String, Option<Vec<u8>>) = if op == "row-splice-json-binary" {
+                (format!("{j} "), "0".into(), j.clone(), "0".into(), Some(b" ".to_vec()))
+            } else {
+                // entity "0" + json " {..}"  versus entity "0 " + json "{..}"
+                (format!(" {j}"), "0".into(), j.clone(), "0 ".into(), None)
+            };
+            let mut a = new_row(c, &signed_entity, signed_json, c.now, r1);
+            a.sign(&mkey).map_err(|e| e.to_string())?;
+            let mut b = a.clone();
+            b._entity = shown_entity;
+            b._json = Some(shown_json);
+            b._binary = shown_binary;
+            forged_node = Some(b.id);
+            inj.nodes.push(b);
+            c.w.fault("row_recut_under_one_signature");
+        }
         "signing-oracle-node" | "signing-oracle-reference" => {
             // M asks H to "prove its identity" on a challenge that is the digest of a row M invents in H's name
             let pet = template(c, &r1, "1")?;
@@ -1155,7 +1222,9 @@ fn attack_c06(c: &mut Ctx, op: &'static str) -> Result<(), String> {
     }
     if let Some(id) = forged_node {
         let n: i64 = conn.query_row("SELECT count(*) FROM _node WHERE id = ?1", [id.as_slice()], |r| r.get(0)).map_err(|e| e.to_string())?;
-        if n > 0 {
+        if n > 0 && op.starts_with("row-splice") {
+            c.w.violation("C06", &format!("forged-row-stored/{op}"), "V stored a row that differs from the row its signature was made for (the same bytes cut at another field boundary)".to_string());
+        } else if n > 0 {
             c.w.violation("C06", "signing-oracle-forgery/node", "V stored a row in H's name that H never wrote: its signature was obtained from H's answer to an identity challenge".to_string());
         }
     }
@@ -1258,6 +1327,14 @@ fn craft_definition(c: &mut Ctx, op: &'static str) -> Result<Option<dv::RoomNode
             let e = sign_edge(e0.src, &e0.src_entity, &e0.label, e0.dest)?;
             rn.admin_edges.retain(|x| x.dest != e0.dest);
             rn.admin_edges.push(e);
+        }
+        "user-entry-signed-by-a-revoked-user-admin" => {
+            // the group of which M WAS the user admin: M adds itself as a user, dated now (after the revocation)
+            let Some(g) = cur.auth_nodes.iter().position(|a| !a.user_admin_nodes.is_empty()) else { return Ok(None) };
+            let n = mk_node(&user_ent, user_json(&mvk))?;
+            let gid = cur.auth_nodes[g].node.id;
+            rn.auth_nodes[g].user_edges.push(sign_edge(gid, &auth_ent, &user_label, n.id)?);
+            rn.auth_nodes[g].user_nodes.push(dv::UserNode { node: n });
         }
         "entries-omitted-while-a-legitimate-entry-is-added" => {
             // `cur` already holds a user the honest admin has just added (see attack_c07); the sender leaves out
